@@ -20,6 +20,12 @@ def run_spec(spec: dict) -> list[dict]:
         np.random.seed(int(spec["scramble"]))
         np.random.rand(int(spec["scramble"]) % 13 + 1)
         random.random()
+    for pre in spec.get("prelude", []):      # other trees optimised earlier in this process (their traces are discarded)
+        from pyhms.tree import DemeTree as _DT0
+        pcfg, prec = build(pre)
+        ptree = _DT0(pcfg)
+        prec.tree = ptree
+        ptree.run()
     warm_inner = None
     if spec.get("reuse_mechanism"):
         # the sprout mechanism object has already served another tree (a module-level mechanism shared by several runs,
